@@ -27,6 +27,17 @@ CHECKS = {
             "expression must build; every entry of an unsupported-type table (incl. dataclasses with an unsupported field, nested five ways) must raise TypeError / "
             "UnsupportedAnnotation at build time; hooks raising 13 exception classes are placed in 9 contexts.",
             E1_NOTE),
+    'C07': ("bounded-exhaustive enumeration of rejected cells; compositional oracle (the implementation on strictly smaller inputs) plus reference field tables",
+            "For every rejected cell the root of the error tree is rebuilt from element-wise runs of the real converters on the sub-values alone: product children keyed by exactly "
+            "the positions/keys rejected on their own and equal (typed, nan-safe) to the element's own tree, missing/extra/duplicate from the reference field table, one sum child per "
+            "typing.get_args member in order, leaves recording the sub-value at their path, wrappers transparent, and the tree unchanged by rendering. One level per cell; the levels "
+            "below are the cells of the smaller types, so the check is an induction over the enumerated grammar.",
+            E1_NOTE),
+    'C08': ("bounded-exhaustive enumeration of reachable error trees; independent tree walk as text oracle; cross-interpreter digest comparison under two hash seeds",
+            "Every error tree reachable from the extended cell space is rendered twice (must not raise, must be equal), checked against an independent walk that lists what the text "
+            "must contain in nesting order (path components, leaf expectations, missing/extra/duplicate names also per the reference field table, offending values, cause messages), "
+            "and re-rendered in two fresh interpreters with different PYTHONHASHSEED whose texts must agree.",
+            E1_NOTE),
     'C09': ("bounded-exhaustive enumeration with before/after deep snapshots (structure + container identity) on the real entry points; immutable-spelling differential oracle",
             "Every cell runs from_data, convert, Cls.from_data, Cls(*args/**kw) and into_data(result) on fresh mutable containers (also defaultdict / inserting mappings) "
             "and compares a deep snapshot before and after, for both verdicts; the same datum spelled with tuple / MappingProxyType must give the same verdict and value.",
